@@ -109,6 +109,10 @@ def _distribute_try(computation_graph: ComputationGraph,
             var_hosted.update({c: a})
             agents_capa[a] -= computation_memory(
                 computation_graph.computation(c))
+        if hints.must_host(a) and agents_capa[a] < 0:
+            raise ImpossibleDistributionException(
+                'Not enough capacity on agent {} for the computations it '
+                'must host: {}'.format(a, hints.must_host(a)))
 
     # First mimic original secp adhoc behavior
     for n in nodes:
